@@ -16,12 +16,12 @@ import (
 var simotGroups = []struct {
 	name string
 	g    group.Group
-	cost int
+	quick int
 }{
-	{"P256", group.P256, 1},
-	{"ristretto255", group.Ristretto255, 1},
-	{"P384", group.P384, 3},
-	{"P521", group.P521, 6},
+	{"P256", group.P256, 150},
+	{"ristretto255", group.Ristretto255, 150},
+	{"P384", group.P384, 50},
+	{"P521", group.P521, 25},
 }
 
 var simotLens = []int{0, 1, 15, 16, 17, 32, 100, 1000}
@@ -159,7 +159,7 @@ func TestC16SimOT(t *testing.T) {
 	for _, sg := range simotGroups {
 		sg := sg
 		t.Run(sg.name, func(t *testing.T) {
-			vlib.Check(t, vlib.N(60, 600)/sg.cost, func(t *rapid.T) { simotCase(t, sg.name, sg.g) })
+			vlib.Check(t, vlib.N(sg.quick, 5*sg.quick), func(t *rapid.T) { simotCase(t, sg.name, sg.g) })
 		})
 	}
 }
